@@ -4,7 +4,8 @@ Spec: spec/Inhibit.tla (implementation layer: per-rule source cache + one-source
 index + gcCallback + hasEqual; reference layer: InhibitedRef over the provider's firing alerts).
 MC: spec/mc/MC_Inhibit*.cfg (refinement checked as "exact or a listed gap", DESIGN.md 4.4).
 Gen: Gen_Inhibit (all short histories) + Sim_Inhibit (random long ones) replayed by
-harness/c03 on the real mem.Alerts + inhibit.Inhibitor + notify.MuteStage under virtual time;
+harness/c03 on the real config.Load (rule sets incl. optional, possibly repeated rule names, rendered
+to YAML) + mem.Alerts + inhibit.NewInhibitor/Run + notify.MuteStage under virtual time;
 the oracle of the replay is the reference evaluated over the alerts the real provider holds firing.
 
 Finding F2 (three variants F2a/F2b/F2c, known_findings.d/C03.json): a missed inhibition whose
@@ -160,10 +161,13 @@ def run(tier, v):
     known = tla_set(open_keys)
 
     # ---- 1. the design: exhaustive model checking (runs beside the harness build and the generators)
-    mc_jobs = [("mc", "MC_Inhibit.cfg", {})]
+    # mc_names: two rules carrying the same optional name (N1: different rules, N1r: other order, N2: identical rules);
+    # InvNameBlind = the verdict of both layers is that of the same rules without names, and every rule is loaded
+    mc_jobs = [("mc", "MC_Inhibit.cfg", {}), ("mc_names", "MC_Inhibit_names.cfg", {"UseRuleSets": '{"N1"}'})]
     if thorough:
         mc_jobs = [("mc_queue", "MC_Inhibit_thorough.cfg", {}), ("mc_time", "MC_Inhibit_time.cfg", {}),
-                   ("mc_2r", "MC_Inhibit_2r.cfg", {}), ("mc_eq", "MC_Inhibit_eq.cfg", {})]
+                   ("mc_2r", "MC_Inhibit_2r.cfg", {}), ("mc_eq", "MC_Inhibit_eq.cfg", {}),
+                   ("mc_names", "MC_Inhibit_names.cfg", {})]
     mcs = {}
 
     def run_mcs(jobs):    # one after the other, beside the generators (4 workers) and the replay
@@ -174,9 +178,10 @@ def run(tier, v):
                                      timeout=1500 if thorough else 300, coverage=False, files=[cfg])
             except Exception as e:       # judged after join
                 mcs[name] = e
-    ths = [threading.Thread(target=run_mcs, args=(mc_jobs[0::2],))]
-    if len(mc_jobs) > 1:
-        ths.append(threading.Thread(target=run_mcs, args=(mc_jobs[1::2],)))
+    if thorough:
+        ths = [threading.Thread(target=run_mcs, args=(mc_jobs[0::2],)), threading.Thread(target=run_mcs, args=(mc_jobs[1::2],))]
+    else:           # quick: one after the other (both end before the replay does)
+        ths = [threading.Thread(target=run_mcs, args=(mc_jobs,))]
     for t in ths:
         t.start()
 
@@ -185,7 +190,10 @@ def run(tier, v):
 
         # ---- 2. behaviours printed by TLC
         gens = []   # (name, cfg description, path, lib, tlc result)
-        jobs = [("exh", "Gen_Inhibit.cfg", {}, None, None)]
+        # exh_names: rule sets whose rules repeat a name (rendered to YAML, loaded by the real config.Load)
+        names_sets = {"UseRuleSets": '{"N1", "N1r", "N2", "N3"}', "PutAlerts": '{"S1", "B", "T"}', "ScacheGCEvery": "2", "ProvGCEvery": "3"}
+        jobs = [("exh", "Gen_Inhibit.cfg", {}, None, None),
+                ("exh_names", "Gen_Inhibit.cfg", dict(names_sets, HistLen="4" if thorough else "3"), None, None)]
         if thorough:
             jobs += [("exh_deep", "Gen_Inhibit.cfg", {"HistLen": "6"}, None, None),
                      ("exh_wide", "Gen_Inhibit.cfg", {"HistLen": "4", "EndOffs": "{1, 2, 3}", "Timeouts": "{TRUE, FALSE}"}, None, None),
@@ -237,6 +245,9 @@ def run(tier, v):
         raise vlib.Inconclusive("too few Mutes evaluations reached (%d, %d inhibited by the reference)" % (mutes, inh))
     if cnt.get("order_keys_reached_by_several_histories", 0) < 10:
         raise vlib.Inconclusive("order independence not exercised")
+    for shape in ("unnamed", "uniquely_named", "duplicate_names", "duplicate_names_identical_rules"):
+        if cnt.get("cases_rules_" + shape, 0) < 50:
+            raise vlib.Inconclusive("rule sets with %s rules were replayed in only %d behaviours" % (shape, cnt.get("cases_rules_" + shape, 0)))
 
     sample = []
     if results and results[0]["samples"]:
@@ -268,10 +279,15 @@ def run(tier, v):
                              "(every refresh honoured), rule-cache GC and provider GC at any instant")
                    + "; Gen: " + ", ".join("%s=%d" % (n, g.behaviours) for n, _, _, g in gens)
                    + " behaviours (exh: all histories of 5 ops over put{S1,S2,B}x{resolve,fire}+tick, i.e. every arrival order; "
+                     "exh_names: all histories of 3 (thorough 4) ops over put{S1,B,T}+tick for 4 rule sets whose rules repeat an optional name "
+                     "(two different rules in both orders, two identical rules, named/unnamed/duplicate), loaded through config.Load; "
                      "exh_deep: 6 ops; exh_wide: 4 ops with 3 ends x timeout/explicit; exh_2r: 2 rules; exh_eq: equal=[] and [c,d]; "
-                     "sim: 30 ops, 5 rule sets incl. 2-rule sets and regex/negative matchers, 6 alerts, 7 queries, both start modes)"),
+                     "sim: 30 ops, 9 rule sets incl. 2- and 3-rule sets, regex/negative matchers and unnamed / uniquely named / duplicate-named rules, 6 alerts, 7 queries, both start modes)"),
     }
+    coverage["rule_name_shapes_replayed"] = {k[len("cases_rules_"):]: n for k, n in cnt.items() if k.startswith("cases_rules_")}
     assumptions = [
+        "every rule set is rendered as inhibit_rules of a configuration file and loaded by the real config.Load (which accepts repeated rule names); "
+        "the reference counts every listed rule, whatever its name",
         "UpdatedAt of a submitted alert is its ingestion instant (as api/v2 sets it), so the newer submission is the younger alert in Alert.Merge",
         "every environment event has its own instant strictly inside a time unit; verdicts are read at quiescence (synctest.Wait), never at the instant an alert ends",
         "fingerprint collisions between equal-label sets are ignored (EqKey is the label values themselves)",
